@@ -4,7 +4,9 @@
 # RESULT line per job and check on stdout. Lanes are created / refreshed first and left in place (remove with lane.sh rm).
 set -u
 JOBS="$1"; TIER="$2"; N="${3:-4}"
-for i in $(seq 1 "$N"); do /verif/tools/lane.sh setup "$i"; done
+# NO_SETUP=1: the lanes exist and are current (several run_lanes.sh may then share them; a setup would
+# check out the lane's repo under a job that is running there)
+if [ "${NO_SETUP:-0}" != 1 ]; then for i in $(seq 1 "$N"); do /verif/tools/lane.sh setup "$i"; done; fi
 run_job() {
   line="$1"; tier="$2"; n="$3"
   while :; do
